@@ -206,6 +206,29 @@ def func_case(rep, spec, index, tmp):
         close(cond.permeate_pressure, c2.permeate_pressure)
     rep.require("conditions (JSON): save -> load returns the same conditions", ok, dict(case, conditions=gen.describe_conditions(cond)),
                 {"loaded": gen.describe_conditions(c2)})
+    # ... and the loaded object BEHAVES like the original: the same process model from both (the programme is not stored)
+    if ok and 0.02 < cond.initial_feed_composition.p < 0.98:
+        from pyvaporation.mixtures import Mixtures
+        from pyvaporation.pervaporation import Pervaporation
+
+        mix = getattr(Mixtures, rng.choice(gen.BUILTIN_MIXTURES))
+        pv = Pervaporation(gen.gen_membrane(rng, mix), mix)
+        cond.temperature_program = None
+        runs = []
+        for c in (cond, c2):
+            try:
+                with guards.budget(proc.SOFT_BUDGET):
+                    m = pv.ideal_non_isothermal_process(conditions=c, number_of_steps=2, delta_hours=1e-6)
+                runs.append(proc.model_fingerprint(m))
+            except guards.BudgetExceeded:
+                runs.append("slow")
+            except Exception as e:
+                runs.append("raised " + type(e).__name__)
+        if "slow" not in runs:
+            same = runs[0] == runs[1]
+            diff = None if same or isinstance(runs[0], str) or isinstance(runs[1], str) else proc.first_difference(runs[0], runs[1])
+            rep.require("loaded conditions behave like the original ones (same process model, bitwise)", same, dict(case, conditions=gen.describe_conditions(cond), mixture=mix.name),
+                        {"original": runs[0] if isinstance(runs[0], str) else "returned", "loaded": runs[1] if isinstance(runs[1], str) else "returned", "difference": diff})
 
 
 # ------------------------------------------------------------------------------------------------ process models
